@@ -26,22 +26,29 @@ IDS = {"sm": ["urn:sm/1+=", "grüße-ä", "https://ex.org/sm?a=b&c=>>>?"], "shel
        "cd": ["urn:cd:1", "urn:cd:2/ü"]}
 RULE = {"sm": ("/submodels", "submodel_id", "sm"), "shell": ("/shells", "aas_id", "aas"),
         "cd": ("/concept-descriptions", "concept_id", "cd")}
-TOPNAMES = {"p1": "P", "c1": "C", "f1": "F", "f5": "F", "b1": "B", "l1": "L", "p9": "P"}
-PATHS = ["p1", "c1", "c1.p2", "c1.c2", "c1.c2.p3", "f1", "b1", "l1", "p9", "zz", "c1.zz", "p1.x"]
+TOPNAMES = {"p1": "P", "c1": "C", "f1": "F", "f5": "F", "b1": "B", "l1": "L", "p9": "P", "v1": "?", "v2": "?"}
+G.RSI_IDS.update({IDS["sm"][1], "urn:dangling"})      # references to these carry a referredSemanticId
+PATHS = ["p1", "c1", "c1.p2", "c1.c2", "c1.c2.p3", "f1", "b1", "l1", "p9", "v1", "v2", "c1.v3", "zz", "c1.zz", "p1.x"]
 ACC = [(None, "json"), ("application/json", "json"), ("application/xml", "xml"), ("text/xml", "textxml")]
 FMT = ["json", "json", "xml", "textxml"]
 
 
 def mk_elem(rng, name, depth=0):
-    cls = {"p": "P", "c": "C", "f": "F", "b": "B", "l": "L"}[name[0]]
+    cls = {"p": "P", "c": "C", "f": "F", "b": "B", "l": "L"}.get(name[0])
+    if cls is None:      # the v* names change their class from document to document
+        cls = rng.choice(["P", "R", "F", "B", "C0", "P"])
     tok = rng.randrange(1, 6)
     q = [(t, rng.randrange(1, 9)) for t in rng.sample(CS.QTYPES, rng.choice([0, 0, 1, 2]))]
     if cls == "P":
         return CS.P(name, tok, q)
+    if cls == "R":
+        return dict(CS.R(name, tok), quals=q)
+    if cls == "C0":
+        return CS.C(name, [], tok, q)
     if cls == "C":
         kids = []
         if depth < 2:
-            for n in (["p2", "c2"] if depth == 0 else ["p3"]):
+            for n in (["p2", "c2", "v3"] if depth == 0 else ["p3"]):
                 if rng.random() < 0.6:
                     kids.append(mk_elem(rng, n, depth + 1))
         return CS.C(name, kids, tok, q)
@@ -77,7 +84,8 @@ def gen_request(rng):
     smseg = b64(rng.choice(IDS["sm"]))
     smone = "/submodels/<base64url:submodel_id>"
     if x < 0.14:
-        return rq(rule, "POST", body=("val", fmt, mk_top(rng, kind, i)), cls="post-" + kind)
+        q = [("level", "core")] if rng.random() < 0.2 else []
+        return rq(rule, "POST", body=("val", fmt, mk_top(rng, kind, i)), query=q, cls="post-" + kind)
     if x < 0.22:
         q = []
         if rng.random() < 0.7:
@@ -94,19 +102,20 @@ def gen_request(rng):
         q = [("level", "core")] if rng.random() < 0.2 else []
         return rq(one + suffix, "GET", query=q, cls="get-" + kind, **{arg: seg})
     if x < 0.40:
-        q = [("level", "core")] if rng.random() < 0.1 else []
+        q = [("level", "core")] if rng.random() < 0.2 else []
         return rq(one, "PUT", body=("val", fmt, mk_top(rng, kind, i)), query=q, cls="put-" + kind, **{arg: seg})
     if x < 0.45:
         return rq(one, "DELETE", cls="delete-" + kind, **{arg: seg})
     if x < 0.53:       # nested element create
         parent = rng.choice([None, None, "c1", "c1.c2", "l1", "p1"])
-        name = rng.choice(list(TOPNAMES)) if parent is None else {"c1": rng.choice(["p2", "c2"]), "c1.c2": "p3", "l1": None, "p1": "p2"}[parent]
+        name = rng.choice(list(TOPNAMES)) if parent is None else {"c1": rng.choice(["p2", "c2", "v3"]), "c1.c2": "p3", "l1": None, "p1": "p2"}[parent]
         e = dict(mk_elem(rng, name if name else "p1"), k="elem")
         if parent == "l1":
             e["ids"] = None if rng.random() < 0.8 else "p1"
+        q = [("level", "core")] if rng.random() < 0.2 else []
         if parent is None:
-            return rq(smone + "/submodel-elements", "POST", body=("val", fmt, e), sm=smseg, cls="post-elem")
-        return rq(smone + "/submodel-elements/<id_short_path:id_shorts>", "POST", body=("val", fmt, e), sm=smseg, path=parent,
+            return rq(smone + "/submodel-elements", "POST", body=("val", fmt, e), sm=smseg, query=q, cls="post-elem")
+        return rq(smone + "/submodel-elements/<id_short_path:id_shorts>", "POST", body=("val", fmt, e), sm=smseg, path=parent, query=q,
                   cls="post-into-list" if parent == "l1" else "post-nested")
     if x < 0.63:
         p = rng.choice(PATHS)
@@ -120,7 +129,8 @@ def gen_request(rng):
     if x < 0.74:
         p = rng.choice(PATHS[:9])
         e = dict(mk_elem(rng, p.split(".")[-1]), k="elem")
-        return rq(smone + "/submodel-elements/<id_short_path:id_shorts>", "PUT", body=("val", fmt, e), sm=smseg, path=p, cls="put-elem")
+        q = [("level", "core")] if rng.random() < 0.2 else []
+        return rq(smone + "/submodel-elements/<id_short_path:id_shorts>", "PUT", body=("val", fmt, e), sm=smseg, path=p, query=q, cls="put-elem")
     if x < 0.79:
         return rq(smone + "/submodel-elements/<id_short_path:id_shorts>", "DELETE", sm=smseg, path=rng.choice(PATHS), cls="delete-elem")
     if x < 0.90:      # qualifiers
@@ -142,7 +152,7 @@ def gen_request(rng):
         if y < 0.85:
             return rq(one_q, "PUT", body=("val", fmt, {"k": "qual", "type": rng.choice(CS.QTYPES), "val": rng.randrange(1, 9)}), cls="put-qual", **kw)
         return rq(one_q, "DELETE", cls="delete-qual", **kw)
-    if x < 0.95:      # attachments
+    if x < 0.94:      # attachments
         p = rng.choice(["f1", "f1", "f5", "f5", "b1", "p1", "c1"])
         base = smone + "/submodel-elements/<id_short_path:id_shorts>/attachment"
         y = rng.random()
@@ -155,6 +165,8 @@ def gen_request(rng):
     # shell parts
     aseg = b64(rng.choice(IDS["shell"]))
     aone = "/shells/<base64url:aas_id>"
+    if rng.random() < 0.25:
+        smseg = b64(rng.choice(IDS["sm"] + ["urn:dangling"]))
     y = rng.random()
     if y < 0.2:
         return rq(aone + "/asset-information", "GET", aas=aseg, cls="get-asset")
@@ -163,7 +175,7 @@ def gen_request(rng):
     if y < 0.55:
         return rq(aone + "/submodel-refs", "GET", aas=aseg, sorted=True, cls="list-refs")
     if y < 0.75:
-        return rq(aone + "/submodel-refs", "POST", body=("val", fmt, {"k": "ref", "id": rng.choice(IDS["sm"])}), aas=aseg, cls="post-ref")
+        return rq(aone + "/submodel-refs", "POST", body=("val", fmt, {"k": "ref", "id": rng.choice(IDS["sm"] + ["urn:dangling"])}), aas=aseg, cls="post-ref")
     if y < 0.85:
         return rq(aone + "/submodel-refs/<base64url:submodel_id>", "DELETE", aas=aseg, sm=smseg, cls="delete-ref")
     if y < 0.93:
@@ -213,6 +225,15 @@ def norm(a):
     return d
 
 
+def core_view(val):
+    """what a reference repository stores for a body sent with level=core (the handler decodes it stripped)"""
+    v = dict(val)
+    for k in ("quals", "elems", "children", "refs"):
+        if k in v:
+            v[k] = []
+    return v
+
+
 def get_json(srv, url):
     r = srv.client.get(url)
     try:
@@ -227,6 +248,7 @@ def oracle_history(srv, backed, reqs, routes):
     ref = {}          # identifier -> (kind, abstract value or None when the content is not tracked)
     fails = []
     uploads = {}      # attachment URL -> bytes uploaded there
+    refs = {}         # shell identifier -> set of submodel identifiers it references
     has_get = {r for (r, ms, e) in routes if "GET" in ms}
     for k, req in enumerate(reqs):
         url, resp, exc = srv.fire(req)
@@ -252,6 +274,8 @@ def oracle_history(srv, backed, reqs, routes):
                 if core and kind == "sm":
                     stored = dict(val, quals=[], elems=[])
                 ref[val["id"]] = (kind, stored)
+                if kind == "shell":
+                    refs[val["id"]] = set(val["refs"])      # post_aas never decodes stripped
         elif kind and not ep.startswith("post_"):
             lab = H.decode_label(req[RULE[kind][2]])
             ident = lab[1] if lab[0] == "ok" else None
@@ -273,12 +297,47 @@ def oracle_history(srv, backed, reqs, routes):
                     if core and kind == "shell":
                         new = dict(val, refs=[])
                     ref[ident] = (kind, new)
+                    if kind == "shell":
+                        refs[ident] = set(new["refs"])
             elif ep.startswith("delete_"):
                 if (st == 204) != present and st in (204, 404):
                     fails.append((k, "delete", f"DELETE answered {st}, reference {'has' if present else 'does not have'} the identifier", ep))
                 if st == 204:
                     ref.pop(ident, None)
-        elif ep is not None and req["method"] in ("POST", "PUT", "DELETE") and st < 300:
+                    refs.pop(ident, None)
+        # ---- the submodel references of a shell: listed <-> addressable by the submodel identifier
+        if ep in ("post_aas_submodel_refs", "delete_aas_submodel_refs_specific", "put_aas_submodel_refs_submodel",
+                  "delete_aas_submodel_refs_submodel", "aas_submodel_refs_redirect") and req.get("aas"):
+            la = H.decode_label(req["aas"])
+            a_id = la[1] if la[0] == "ok" else None
+            if a_id in refs and a_id in ref and ref[a_id][0] == "shell":
+                if ep == "post_aas_submodel_refs":
+                    if val is not None and val["k"] == "ref":
+                        exp = 409 if val["id"] in refs[a_id] else 201
+                        if st != exp:
+                            fails.append((k, "reference", f"POST of a reference {'already' if exp == 409 else 'not yet'} held answered {st}", ep))
+                        if st == 201:
+                            refs[a_id].add(val["id"])
+                else:
+                    ls = H.decode_label(req["sm"]) if req.get("sm") else ("bad",)
+                    s_id = ls[1] if ls[0] == "ok" else None
+                    held = s_id in refs[a_id]
+                    if held and st == 404 and not (ep in ("put_aas_submodel_refs_submodel", "delete_aas_submodel_refs_submodel")
+                                                   and not (s_id in ref and ref[s_id][0] == "sm")):
+                        fails.append((k, "reference", f"a submodel reference the shell lists is answered 404 when addressed by its identifier", ep))
+                    if not held and st in (204, 307):
+                        fails.append((k, "reference", f"a submodel reference the shell does not hold is answered {st}", ep))
+                    if st == 204 and ep in ("delete_aas_submodel_refs_specific", "delete_aas_submodel_refs_submodel"):
+                        refs[a_id].discard(s_id)
+                # the listing of the shell's references = the reference set
+                s2, page = get_json(srv, f"{G.BASE}/shells/{b64(a_id)}/submodel-refs?limit=100")
+                if s2 == 200:
+                    items = page["items"] if isinstance(page, dict) and page.get("k") == "page" else []
+                    got = sorted(x["keys"][0][1] for x in items if x.get("keys"))
+                    if got != sorted(refs[a_id]):
+                        fails.append((k, "reference", f"the shell lists {len(got)} references, the reference repository holds {len(refs[a_id])}", ep))
+                        refs[a_id] = set(got)
+        if ep is not None and kind is None and req["method"] in ("POST", "PUT", "DELETE") and st < 300:
             # a nested change: the reference keeps the identifier, its content is re-read from the server once
             for a in ("sm", "aas"):
                 if req.get(a):
@@ -294,11 +353,14 @@ def oracle_history(srv, backed, reqs, routes):
                     ref[lab[1]] = ("sm", None)
         # ---- generic probes
         loc = resp.headers.get("Location")
-        if st == 201 and loc and resp.data and req["accept"][1] == "json":
+        if st == 201 and loc and val is not None and val["k"] in ("sm", "shell", "cd", "elem", "qual"):
             s2, got = get_json(srv, loc)
-            sent = G.abs_json(json.loads(resp.data))
+            sent = core_view(val) if core and ep != "post_aas" else val
+            if sent.get("k") == "elem" and sent.get("ids") is None:
+                sent = dict(sent, ids=(got or {}).get("ids"))       # item of a list: the server names it
             if s2 != 200 or norm(got) != norm(sent):
-                fails.append((k, "location", f"created resource is not retrievable at its Location (GET -> {s2})", ep))
+                fails.append((k, "location", f"resource created{' with level=core' if core else ''} from a {b[1]} body is not retrievable "
+                                             f"at its Location with the content a reference repository stores (GET -> {s2})", ep))
         if ep == "put_submodel_submodel_element_attachment" and st == 204:
             r2 = srv.client.get(url)
             want = G.CONTENTS[b[2][1]]
@@ -322,11 +384,13 @@ def oracle_history(srv, backed, reqs, routes):
             s2, _ = get_json(srv, url)
             if s2 != 404:
                 fails.append((k, "delete-probe", f"resource still answered {s2} after its DELETE returned 204", ep))
-        if req["method"] == "PUT" and st == 204 and val is not None and not core and val["k"] in ("sm", "shell", "cd", "elem") \
+        if req["method"] == "PUT" and st == 204 and val is not None and val["k"] in ("sm", "shell", "cd", "elem") \
                 and req["rule"] in has_get and not CS.renames(req):
             s2, got = get_json(srv, H.url_of(dict(req, query=[])))
-            if s2 != 200 or norm(got) != norm(val):
-                fails.append((k, "replace-probe", f"content read after PUT (GET -> {s2}) is not the content that was PUT", ep))
+            sent = core_view(val) if core and ep != "put_aas_asset_information" else val
+            if s2 != 200 or norm(got) != norm(sent):
+                fails.append((k, "replace-probe", f"content read after PUT{' with level=core' if core else ''} of a {b[1]} body (GET -> {s2}) "
+                                                  f"is not the content a reference repository holds", ep))
         # ---- listings = keys of the reference, each object under its own id, pages = listing
         if req["method"] != "GET" and st < 300:
             for kd, (rule, conv, arg) in RULE.items():
@@ -442,11 +506,11 @@ def directed(srv, chk):
 def run(chk):
     rng = chk.rng
     logging.disable(logging.CRITICAL)
-    t = c11.tie_T(chk)
+    ex, srv = c11.tie_T(chk)
     chk.theorems("props.C10", THEOREMS, VO)
-    if t is None:
-        return chk.finish(level="proof", rule="translator aborted; no cases run")
-    ex, srv = t
+    model = ex is not None
+    if not model:       # keep searching for a concrete failing input with the reference repository alone
+        ex = {"routes": c11.fallback_routes(srv), "functions": {}}
     nh, hl = (140, 30) if chk.tier == "quick" else (700, 40)
     plans, hist = [], []
     for k in range(nh):
@@ -475,7 +539,7 @@ def run(chk):
     big_objs, big_reqs = CS.big_listing()
     paging_oracle(srv, chk, big_objs)
     plans.append((big_objs, [], False, big_reqs, False))
-    n = c11.run_cases(chk, srv, ex, plans, "C10", prop="C10")
+    n = c11.run_cases(chk, srv, ex, plans, "C10", prop="C10", model=model)
     chk.cov["requests_compared_with_model"] = n
     chk.cov["histories"] = {"in_memory": sum(1 for b, _ in hist if not b), "local_file": sum(1 for b, _ in hist if b), "length": hl}
     chk.samples = [{"history_prefix": [f"{r['method']} {H.url_of(r)} [{r['cls']}]" for r in reqs[:6]], "backed": b} for b, reqs in hist[:3]]
